@@ -187,3 +187,55 @@ def canonical_value(ty: int, lit: str) -> str:
         d = rfc_data(ty, lit)
         return f"a:{int.from_bytes(d[:2], 'big')}:{d[2:].hex()}"
     return lit
+
+
+# ------------------------------------------------- independent wire parsers
+class WireError(Exception):
+    pass
+
+
+def rfc_parse_avps(data: bytes) -> list[tuple[int, int, int, bytes]]:
+    """Independent parser of a well-formed AVP sequence (RFC 6733 §4.1):
+    [(code, vendor, flags, data)]; raises WireError on anything malformed."""
+    out = []
+    pos = 0
+    while pos < len(data):
+        if pos + 8 > len(data):
+            raise WireError("short header")
+        code = int.from_bytes(data[pos:pos + 4], "big")
+        flags = data[pos + 4]
+        length = int.from_bytes(data[pos + 5:pos + 8], "big")
+        hdr = 8
+        vendor = 0
+        if flags & 0x80:
+            if pos + 12 > len(data):
+                raise WireError("short vendor")
+            vendor = int.from_bytes(data[pos + 8:pos + 12], "big")
+            hdr = 12
+        if length < hdr:
+            raise WireError("length below header")
+        end = pos + length
+        padded = pos + (length + 3) // 4 * 4
+        if padded > len(data):
+            raise WireError("overrun")
+        out.append((code, vendor, flags, data[pos + hdr:end]))
+        pos = padded
+    return out
+
+
+def rfc_header(ver, length, flags, code, app, hbh, e2e) -> bytes:
+    return (bytes([ver]) + length.to_bytes(3, "big") + bytes([flags]) + code.to_bytes(3, "big")
+            + app.to_bytes(4, "big") + hbh.to_bytes(4, "big") + e2e.to_bytes(4, "big"))
+
+
+def rfc_parse_header(data: bytes):
+    if len(data) < 20:
+        raise WireError("short")
+    return (data[0], int.from_bytes(data[1:4], "big"), data[4], int.from_bytes(data[5:8], "big"),
+            int.from_bytes(data[8:12], "big"), int.from_bytes(data[12:16], "big"),
+            int.from_bytes(data[16:20], "big"))
+
+
+def avpobj_wire(s: str) -> bytes:
+    c, v, f, p = s.split(".")
+    return rfc_wire(int(c), int(v), int(f), bytes.fromhex(p))
